@@ -7,7 +7,13 @@
      wf xyz|lmp <N atoms> <file as hex>     -> 1 / 0   (every frame satisfies the proved-sound checker)
      trr <head> <h:d,h:d,...> <s,s,s or -> <total>
         -> <br> <hs> <pend idx:d or N> <bad>|<events>|<finish br or ->|<finish events>
-           event = H:at:len:size  D:at:len:size  Y:idx  G:at                                    *)
+           event = H:at:len:size  D:at:len:size  Y:idx  G:at
+     trs <recheck 0/1> <head> <h:d,h:d,...> <s,s,s or -> <fin>
+        every observation (check_poll / getsize) of the loop against the schedule: observation k made
+        while GROMACS runs sees s_k bytes, the later ones see GROMACS ended (code 0) and <fin> bytes
+        -> <program points>|<final pc> <br> <hs> <pend idx:d or N> <bad>|<events>
+           program point = P poll  h header getsize  d data getsize  G guard poll  g guard getsize
+                           f final getsize  r read_remaining getsize  . returned                 *)
 
 let ascii_tbl : ascii array =
   Array.init 256 (fun n ->
@@ -117,6 +123,10 @@ let string_of_event = function
 
 let string_of_events ev = if ev = [] then "-" else String.concat "," (List.map string_of_event ev)
 
+let string_of_pc = function
+  | PcPoll -> "P" | PcHdrSize -> "h" | PcDataSize -> "d" | PcGuardPoll -> "G" | PcGuardSize -> "g"
+  | PcFinSize -> "f" | PcRemSize -> "r" | PcDone -> "."
+
 let handle toks =
   match toks with
   | ["polls"; kind; fixed; hex; seqs] ->
@@ -156,6 +166,23 @@ let handle toks =
     in
     String.concat " " [string_of_z st.t_br; string_of_z st.t_hs; pend; string_of_bool_ st.t_bad]
     ^ "|" ^ string_of_events ev ^ "|" ^ fin
+  | ["trs"; recheck; head; lay; sizes; fin] ->
+    let lay =
+      list_of_string
+        (fun hd -> match String.split_on_char ':' hd with
+           | [h; d] -> (z_of_string h, z_of_string d)
+           | _ -> failwith "bad layout")
+        lay
+    in
+    let sizes = list_of_string z_of_string sizes in
+    let rc = bool_of_string_ recheck in
+    let (m, ev) = trr_sched rc (z_of_string head) lay sizes (z_of_string fin) in
+    let pcs = trr_sched_pcs rc (z_of_string head) lay sizes (z_of_string fin) in
+    let st = m.m_st in
+    let pend = match st.t_pend with None -> "N" | Some (i, d) -> string_of_nat i ^ ":" ^ string_of_z d in
+    String.concat "" (List.map string_of_pc pcs) ^ "|"
+    ^ String.concat " " [string_of_pc m.m_pc; string_of_z st.t_br; string_of_z st.t_hs; pend; string_of_bool_ st.t_bad]
+    ^ "|" ^ string_of_events ev
   | ["lsize"; lay] ->
     let lay =
       list_of_string
